@@ -11,6 +11,8 @@
                                                 gc.collect(): a = 1 iff the weak reference to its
                                                 future / callable / argument / result is dead
      End
+   Scenario mode "ftshared" (f_timeout's shared executor, SharedTimeout.tla): nobody but the library ever holds that
+   executor, so Action("drop") is the first event; Pending(f) is emitted just before each f_timeout() call.
 *)
 EXTENDS ObsKit
 
